@@ -122,10 +122,26 @@ class Refuse(Opts):
     name = 'M_refuse'
     kind = 'monitor'
     describe = ('Solver(["-f", <missing file>] + argv): SystemExit(2) exactly for unacceptable option sets and '
-                'FileNotFoundError otherwise, i.e. the refusal happens before the instance is read')
+                'FileNotFoundError otherwise, i.e. the refusal happens before the instance is read; every third option set also '
+                'with -bf and/or -pc')
 
     def cases(self, ctx):
-        return gen_cases(ctx, self.name, 600 if ctx.thorough else 150)
+        rng = ctx.rng(self.name + '/modes')
+        for k, c in enumerate(gen_cases(ctx, self.name, 600 if ctx.thorough else 150)):
+            yield c
+            if k % 3 == 0:
+                # the same option set in the other modes (brute force, project closures): the refusal rule is the same
+                extra = [['-bf'], ['-pc'], ['-bf', '-pc']][(k // 3) % 3]
+                # (inserted only in front of another flag, never between a flag and its values)
+                yield dict(c, argv=self.safe_insert(c['argv'], extra, rng))
+
+    @staticmethod
+    def safe_insert(argv, extra, rng):
+        out = list(argv)
+        for e in extra:
+            spots = [i for i, a in enumerate(out) if a.startswith('-') and not a[1:].lstrip('-').isdigit()] + [len(out)]
+            out.insert(rng.choice(spots), e)
+        return out
 
     def observe(self, inp):
         from matchingproblems.solver.solver import Solver
